@@ -48,6 +48,9 @@ chk("C18", "exploration", "deterministic simulation of storage programs: one see
 chk("C17", "fault_enumeration", "deterministic simulation with storage fault injection: every single storage call (by kind and index) of every probe operation fails once on a fork of the simulated disk; error-or-fault-free-answer for reads, no success after a failed write, reopen to old-or-new after failed write operations; seeded two-fault sequences",
     "Single-fault positions are enumerated exhaustively per explored (history, probe); histories and probes (17 read kinds, 6 write kinds incl. import) are sampled. Signatures carry the API, the failing call kind, the innermost iavl call site of the injected failure and the symptom.", "A failed storage call returns an error and has no effect. After a reported error the handle is discarded. APIs without an error result are outside the statement. " + N, "DESIGN.md §5 C17")
 
+chk("C10", "exploration", T + "export/import steps inside lock-step histories (stream vs R2 post-order, imported tree vs R1/R2, future hashes); simulated faulty exporter->importer channel and generated hostile node sequences against both importers",
+    "Fidelity: export of every kind of retained version (empty, single leaf, inherited root, >10 000 nodes) through both codecs, imported tree audited and continued. Totality: mutated and generated ExportNode sequences fed to Add/Commit; no panic/hang, nothing visible unless Commit succeeded, committed imports internally consistent.", N + " Import versions capped at 10^6 (allocation of version+1 nonces).", "DESIGN.md §5 C10")
+
 NOT_YET = {
 }
 
